@@ -277,6 +277,31 @@ def eval_tree(t, parent=None, root=True):
     return (kind, tuple(kids))
 
 
+def comment_list(tree):
+    """the comments of a parsed document in order: a line comment verbatim up to trailing blanks, a block comment line by line up to the blanks
+    at the ends of its lines (the indentation of continuation lines may change)"""
+    from .conserve import leaf_list
+    out = []
+    for k, t in leaf_list(tree):
+        if k == 'LineComment':
+            out.append(('line', t.rstrip()))
+        elif k == 'BlockComment':
+            out.append(('block', tuple(l.strip() for l in t.split('\n'))))
+    return out
+
+
+COMMENT_DOCS = [
+    '#grid([x] // note\n, [y])\n', '#table(columns: 2, [a] // c\n, [b])\n', '#table(columns: 2, [a], // c\n [b])\n', '#table(columns: 2,\n  // c\n  [a], [b])\n', '#grid([x] /* c */, [y])\n',
+    '#table(columns: 2, [a] // c\n\n, [b])\n', '#grid(\n  [x], // c\n  // d\n  [y],\n)\n', '#table(columns: 2, ..cells, // c\n [a])\n', '#table(columns: 2, [a], [b]) // c\n', '#grid(// c\n)\n',
+    '#f(a // c\n, b)\n', '#(a // c\n, b)\n', '#let f(a // c\n, b) = 1\n', '#(k: a // c\n, j: b)\n', '#let (a // c\n, b) = x\n', '#import "m.typ": a // c\n, b\n', '$f(a // c\n, b)$\n',
+    '#{\n  a // c\n  ; b\n}\n', '#if a { // c\n  b\n}\n', '#if a /* c */ { b } /* d */ else /* e */ { f }\n', '#for /* c */ x /* d */ in /* e */ y { z }\n', '#let /* c */ x /* d */ = /* e */ 1\n',
+    '#show /* c */ : /* d */ it => it\n', '#set /* c */ text(/* d */ red)\n', '#import /* c */ "a" /* d */ : /* e */ b\n', '#f /* c */ (a)\n', '#a /* c */ .b\n', '#(a /* c */ + /* d */ b)\n',
+    '#(- /* c */ a)\n', '#(a, /* c */)\n', '#(/* c */ a: 1)\n', '#(a: /* c */ 1)\n', '#f(a: // c\n 1)\n', '#f(..// c\n a)\n', '#x => /* c */ x\n', '#(x, /* c */ y) => x\n', '#while /* c */ a { }\n',
+    '#context /* c */ x\n', '#return /* c */ x\n' if False else '#{ return /* c */ x }\n', '#include /* c */ "a"\n', '= H // c\n', '- a // c\n  b\n', '/ T /* c */ : d\n', 'a /* c */ b // d\ne\n', '*a /* c */ b*\n',
+    '$ a /* c */ + b // d\n $\n', '$ f(/* c */ a; b /* d */) $\n', '$ x_/* c */ 1 $\n' if False else '$ x_1 /* c */ $\n', '$ (a /* c */) $\n', '#[a /* c */][// d\n]\n',
+]
+
+
 def raw_lines(S, text):
     r = S.driver.call('rawtexts', hexs(text))
     return tuple(r[1:]) if r[0] == 'ok' else None
@@ -308,6 +333,9 @@ BLOCK_DOCS = [
     '#if a { b } else [ c ]\n', '#show: it => [ #it ]\n', '#a.b[ c ].d\n', '= H #[ a ]\n', '- a #[ b\n  c ]\n', '#f(x => [ y ])\n', '#(a: [ b ], c: { d })\n',
 ]
 EVAL_DOCS = [
+    # display / inline equations on lines with prose, with comments at their edges
+    'x $ a // c\n$\n', 'text $ // c\n a + b $ more\n', '- a $ b // c\n$\n', '*s* $ a // c\n $\n', 'x $a // c\n$\n', 'x $ a /* c */ $ y\n', 'x $/* c */ a$ y\n', 'x $ a $ y\n', 'x $a$ y\n',
+    '$ a // c\n$\n', '$ // c\n a $\n', '#f($ a // c\n$)\n', 'x #[$ a // c\n$] y\n', '$ a $ // c\n', 'x $ a\n b $ y\n', '= H $ a $\n', '/ T: $ a // c\n $\n',
     # blanks evaluation can see
     '#f[ a ]\n', '#f[a ]\n', '#f[ a]\n', '#f[a]\n', '#[ *b* ]\n', '*a *\n', '* a*\n', '_ a _\n', '#strong[ a ] b\n', 'a #f(1) b\n', 'a#f(1)b\n', 'a #x b\n', 'a#[b]c\n', 'a #[b] c\n',
     'a *b*c\n', 'a\nb\n', 'a\n\nb\n', 'a\n\n\n\nb\n', '#[a\n\nb]\n', '#[a\nb]\n', '= H\ntext\n', '= H\n\ntext\n', '- a\n- b\n\n- c\n', 'a \\\nb\n', 'a\\ b\n',
@@ -396,14 +424,20 @@ def explore(S, docs, tabs=(2,), prop='C03', widths=(0, 40, 1 << 30)):
                     tree2 = parse(t1)
                     if tree2 is None:
                         S.absorb(m)
-                        ctx.must_hold(False, '%s:output-does-not-parse' % ('C04' if prop in ('C01', 'C04', 'C02') else prop), lambda mdl: dict(describe(mdl), first=t1))
+                        ctx.must_hold(False, '%s:output-does-not-parse' % ('C04' if prop in ('C01', 'C04', 'C02', 'C09', 'C06') else prop), lambda mdl: dict(describe(mdl), first=t1))
                         return
                     if prop == 'C04':
                         S.absorb(m)
                         ctx.must_hold(True, 'C04:output-does-not-parse')
                         ctx.witness('output parsed')
                         return
-                    if prop == 'C02':
+                    if prop == 'C06':
+                        S.absorb(m)
+                        c1, c2 = comment_list(tree), comment_list(tree2)
+                        ctx.must_hold(c1 == c2, 'C06:comments-lost-duplicated-reordered-or-reworded', lambda mdl: dict(describe(mdl), first=t1, expected=c1, got=c2))
+                        ctx.witness('comments compared')
+                        return
+                    if prop in ('C02', 'C09'):
                         S.absorb(m)
                         try:
                             src_model = None
@@ -412,8 +446,8 @@ def explore(S, docs, tabs=(2,), prop='C03', widths=(0, 40, 1 << 30)):
                             n1 = None
                         n2 = eval_tree(tree2)
                         diff = first_difference(n1, n2)
-                        ctx.must_hold(diff is None, 'C02:evaluation-visible-tree-changed', lambda mdl: dict(describe(mdl), first=t1, difference=diff))
-                        if src.count('`') >= 2:
+                        ctx.must_hold(diff is None, 'C02:evaluation-visible-tree-changed' if prop == 'C02' else 'C09:math-whitespace-or-display-flag-changed', lambda mdl: dict(describe(mdl), first=t1, difference=diff))
+                        if src.count('`') >= 2 and prop == 'C02':
                             ctx.must_hold(raw_lines(S, src) == raw_lines(S, t1) or any(ch not in ' \n' for tk in deep.leaf_list(tree) if tk[0] in ('Space', 'Parbreak') for ch in tk[1]), 'C02:raw-text-changed',
                                           lambda mdl: dict(describe(mdl), first=t1))
                         ctx.witness('trees compared')
@@ -461,7 +495,7 @@ def confirm(S, info, prop='C03'):
     src = info['source']
     if S.driver.call('erroneous', hexs(src))[1] == '1':
         return None
-    if prop in ('C01', 'C04', 'C02'):
+    if prop in ('C01', 'C04', 'C02', 'C09', 'C06'):
         t_src = deep.tree_of(S, src)
         for w in (info['width'], 0, 80, 40, 20, 1 << 20):
             a = S.driver.call('format', hexs(src), w, info.get('tab', 2), info.get('reorder', 0))
@@ -472,9 +506,12 @@ def confirm(S, info, prop='C03'):
             if t_out is None:
                 return dict(api='Typstyle::format_content', source=src, width=w, tab=info.get('tab', 2), output=out,
                             what='well-formed %s is formatted to text with syntax errors (width %d): %s' % (show(src), w, show(out)))
-            if prop == 'C02' and t_src is not None:
+            if prop == 'C06' and t_src is not None and comment_list(t_src) != comment_list(t_out):
+                return dict(api='Typstyle::format_content', source=src, width=w, tab=info.get('tab', 2), output=out,
+                            what='comments of %s change when formatted (width %d) to %s: %r -> %r' % (show(src), w, show(out), comment_list(t_src), comment_list(t_out)))
+            if prop in ('C02', 'C09') and t_src is not None:
                 d = first_difference(eval_tree(t_src), eval_tree(t_out))
-                if d is None and raw_lines(S, src) != raw_lines(S, out):
+                if d is None and prop == 'C02' and raw_lines(S, src) != raw_lines(S, out):
                     d = 'the text Typst extracts from a raw element changes'
                 if d:
                     return dict(api='Typstyle::format_content', source=src, width=w, tab=info.get('tab', 2), output=out, difference=d,
@@ -509,7 +546,7 @@ def site_of(src):
 def report(S, prop, found):
     groups = {}
     for lab, info in found:
-        if lab.startswith(prop + ':') or (prop in ('C01', 'C02') and lab.startswith('C04:')):
+        if lab.startswith(prop + ':') or (prop in ('C01', 'C02', 'C09', 'C06') and lab.startswith('C04:')):
             groups.setdefault((lab, site_of(info.get('seed', ''))), []).append(info)
     for (lab, site), infos in sorted(groups.items()):
         hit = None
